@@ -269,6 +269,46 @@ def gen_verify_case(r, n_mut=None):
     return c
 
 
+def default_crossing(ctx):
+    """crossing filesystem boundaries is allowed unless asked otherwise: `gemato verify` without -x and a loader built without
+    allow_xdev judge a tree that spans two filesystems exactly like a loader told allow_xdev=True"""
+    import gemato.recursiveloader as rl
+    import gemato.exceptions as ge
+    r = ctx.rng('c01xdev')
+    n = same = 0
+    with ET.Scratch() as sc:
+        for _ in range(60 if ctx.tier == 'quick' else 600):
+            c = gen_verify_case(r, n_mut=r.choice([0, 0, 1]))
+            GT.mutate(r, c, {p: b'' for p in c.meta['files']}, {m: b'' for m in c.meta['manifests']}, 'xdev-dir')
+            if c.tree.lookup('Manifest') is None:
+                continue
+            key = GT.order_key_for(c.meta['order_seed'])
+            b, s = sc.fresh()
+            try:
+                c.tree.realise(b, s)
+                ref = ET.run_impl(b, 'Manifest', (None, False, None, None, 'default', None, None, False), False, True, [['verify', '', 0, []]], key)
+                with ET.ScandirOrder(key):
+                    rc, items = run_cli_collect(['gemato', 'verify', '--no-openpgp-verify', b])
+                    try:
+                        m = rl.ManifestRecursiveLoader(os.path.join(b, 'Manifest'), verify_openpgp=False)
+                        lib = ['ok', bool(m.assert_directory_verifies(''))]
+                    except Exception as e:
+                        lib = ['err', type(e).__name__]
+            finally:
+                sc.cleanup(b, s)
+            n += 1
+            refv = ref[0] == 'ok' and ref[1] and ref[1][0][0] == 'ok' and ref[1][0][1][0] == 1
+            referr = ref[1][0][1][0] if ref[0] == 'ok' and ref[1] and ref[1][0][0] == 'err' else None
+            replay = {'meta': {k: v for k, v in c.meta.items() if k != 'paths'}, 'reference_allow_xdev_true': str(ref)[:300], 'cli': [rc, items[:6]], 'default_loader': lib,
+                      'tree': describe(c.tree)}
+            if (rc == 0) != refv or (lib == ['ok', True]) != refv:
+                ctx.violation('spec', f'a tree spanning two filesystems: with crossing allowed explicitly the verdict is {"success" if refv else referr or "failure"}, '
+                              f'gemato verify (no -x) exits {rc}, a loader with default arguments answers {lib}', replay)
+            else:
+                same += 1
+    ctx.count('cli:default-crossing', n, n, dist={'runs_agreeing': same})
+
+
 def c01(ctx):
     quick = ctx.tier == 'quick'
     r = ctx.rng('c01')
@@ -345,6 +385,7 @@ def c01(ctx):
     p_py.py_units(ctx, ctx.tier == 'quick')
     c01_impl(ctx, 3000, 25000, gen_verify_case, 'tree:verify',
              'verification verdict differs from the reference (C01: success iff every entry matches and every walked file is covered)')
+    default_crossing(ctx)
     # directory symlinks to siblings / other directories are followed and their files treated like any others
     r = ctx.rng('c01graphs')
     specs, _ = graph_cases(r, True)
